@@ -103,8 +103,24 @@ void on_event(const FacView& v)
         if (!std::strcmp(v.kind, checkpoint_name(i))) kind = i;
     if (kind < 0) return;
     c->n_checkpoint[kind]++;
-    if (kind == CK_RESTART) c->restarts_in_api++;
+    if (kind == CK_RESTART)
+    {
+        c->restarts_in_api++;
+        c->restarts_since_init++;
+    }
     c->last_checkpoint_in_api = kind;
+    if (kind == CK_INIT)
+    {
+        c->min_beta_rel = 1e300L;
+        c->expands_since_init = 0;
+        c->restarts_since_init = 0;
+    }
+    if (kind == CK_EXPAND) c->expands_since_init++;
+    else if (c->beta_scale > 0 && kind != CK_RESTART)
+    {
+        const long double rel = v.beta / c->beta_scale;
+        if (rel < c->min_beta_rel) c->min_beta_rel = rel;
+    }
     c->event(EV_CHECKPOINT, kind, 0, v.k);
     if (c->observer) c->observer->on_checkpoint(kind, v);
     if (c->yield_fn) c->yield_fn(c, EV_CHECKPOINT);
